@@ -386,13 +386,18 @@ def check(ctx):
     ctx.ob("R14-e", tt, "to_thread.run_sync forwards func, args, abandon_on_cancel and limiter", okd,
            detail="" if okd else "to_thread.run_sync does not forward (func, args, abandon_on_cancel=abandon_on_cancel, limiter=limiter)", by=("argument forwarding",))
 
-    # ---- R14-f calls back into the loop return the right values ------------------------------------------------------------------------------------
+    loop_entry_points(ctx, "R14-f")
+
+
+def loop_entry_points(ctx, RULE):
+    """the loop-side entry points used by foreign/worker threads resolve their concurrent future on every path and hand back its
+    outcome (shared by C14 R14-f and C15 R15-f)"""
     rsf = ctx.fn("AsyncIOBackend.run_sync_from_thread", A)
     wr = ctx.fn("AsyncIOBackend.run_sync_from_thread.wrapper", A)
     fvar = None
     for st, env in ctx.sites(wr, "$F.set_result(func(*args))"):
         fvar = u(env["F"])
-    if ctx.need("R14-f", wr, "`f.set_result(func(*args))`", 1 if fvar else 0, 1):
+    if ctx.need(RULE, wr, "`f.set_result(func(*args))`", 1 if fvar else 0, 1):
         def step_f(st, e, c):
             if c.is_exc:
                 return st
@@ -403,28 +408,28 @@ def check(ctx):
                 return f"the caller's future is resolved {st} times on a path leaving by {kind} (exactly once required, or the thread blocks forever)"
             return None
 
-        ctx.paths("R14-f", wr, [("res", [f"{fvar}.set_result($X)", f"{fvar}.set_exception($X)"])], step_f, 0, at_exit_f, instance="run_sync_from_thread.wrapper resolves the future exactly once", broad=True)
+        ctx.paths(RULE, wr, [("res", [f"{fvar}.set_result($X)", f"{fvar}.set_exception($X)"])], step_f, 0, at_exit_f, instance="run_sync_from_thread.wrapper resolves the future exactly once", broad=True)
         se = ctx.sites(wr, f"{fvar}.set_exception($X)")
         for st, env in se:
             h = enclosing(st, (ast.ExceptHandler,), stop=wr.node)
             ok = h is not None and h.type is not None and ast.unparse(h.type) == "BaseException" and getattr(env["X"], "id", None) == h.name
-            ctx.ob("R14-f", wr, "any exception of the callback (BaseException) is forwarded as is", ok, node=st, detail="" if ok else f"`{norm(st)}` is not in `except BaseException as e` forwarding e", by=("except BaseException",))
+            ctx.ob(RULE, wr, "any exception of the callback (BaseException) is forwarded as is", ok, node=st, detail="" if ok else f"`{norm(st)}` is not in `except BaseException as e` forwarding e", by=("except BaseException",))
         rr = ctx.sites(rsf, f"return {fvar}.result()")
-        ctx.ob("R14-f", rsf, "from_thread.run_sync returns the future's outcome", len(rr) == 1, detail="" if rr else f"no `return {fvar}.result()`", by=("return f.result()",))
+        ctx.ob(RULE, rsf, "from_thread.run_sync returns the future's outcome", len(rr) == 1, detail="" if rr else f"no `return {fvar}.result()`", by=("return f.result()",))
         sched = ctx.sites(rsf, "$L.call_soon_threadsafe(wrapper)")
-        ctx.ob("R14-f", rsf, "the wrapper is scheduled in the loop thread", len(sched) == 1, detail="" if sched else "no loop.call_soon_threadsafe(wrapper)", by=("call_soon_threadsafe",))
+        ctx.ob(RULE, rsf, "the wrapper is scheduled in the loop thread", len(sched) == 1, detail="" if sched else "no loop.call_soon_threadsafe(wrapper)", by=("call_soon_threadsafe",))
     raf = ctx.fn("AsyncIOBackend.run_async_from_thread", A)
     tw = ctx.fn("AsyncIOBackend.run_async_from_thread.task_wrapper", A)
     s1 = ctx.sites(tw, "return await func(*args)")
-    ctx.ob("R14-f", tw, "the task returns the coroutine function's own result", len(s1) == 1, detail="" if s1 else "task_wrapper does not `return await func(*args)`", by=("return await func(*args)",))
+    ctx.ob(RULE, tw, "the task returns the coroutine function's own result", len(s1) == 1, detail="" if s1 else "task_wrapper does not `return await func(*args)`", by=("return await func(*args)",))
     s2 = ctx.sites(raf, "$F = $C.run(asyncio.run_coroutine_threadsafe, task_wrapper(), loop=$L)")
     s3 = ctx.sites(raf, "return $F.result()")
     ok = len(s2) == 1 and len(s3) == 1 and u(s2[0][1]["F"]) == u(s3[0][1]["F"])
-    ctx.ob("R14-f", raf, "from_thread.run returns the outcome of the task it scheduled", ok, detail="" if ok else "the returned future is not the one of run_coroutine_threadsafe(task_wrapper())", by=("f.result()",))
+    ctx.ob(RULE, raf, "from_thread.run returns the outcome of the task it scheduled", ok, detail="" if ok else "the returned future is not the one of run_coroutine_threadsafe(task_wrapper())", by=("f.result()",))
     sc = ctx.sites(raf, "$S = getattr(threadlocals, 'current_cancel_scope', None)")
-    ctx.ob("R14-f", raf, "the coroutine joins the scope published for the calling thread", len(sc) == 1, detail="" if sc else "the thread's cancel scope is not picked up", by=("threadlocals.current_cancel_scope",))
+    ctx.ob(RULE, raf, "the coroutine joins the scope published for the calling thread", len(sc) == 1, detail="" if sc else "the thread's cancel scope is not picked up", by=("threadlocals.current_cancel_scope",))
     for q, target in (("run", "run_async_from_thread"), ("run_sync", "run_sync_from_thread")):
         f = ctx.fn(q, FT)
         s = ctx.sites(f, f"return token.backend_class.{target}(func, args, token=$T)")
-        ctx.ob("R14-f", f, f"from_thread.{q} forwards func and args to the backend and returns its value", len(s) == 1, detail="" if s else f"no `return token.backend_class.{target}(func, args, ...)`",
+        ctx.ob(RULE, f, f"from_thread.{q} forwards func and args to the backend and returns its value", len(s) == 1, detail="" if s else f"no `return token.backend_class.{target}(func, args, ...)`",
                by=("delegation",))
